@@ -6,6 +6,8 @@ package bitmap
 func Slice(words []uint64, from, to int32) []uint64 {
 
 	l := ((to - from) + 63) & (^63)
+	// l is a number of bits rounded up to 64; the result needs l/64 words.
+	l >>= 6
 	r := make([]uint64, l)
 
 	for i := from; i < to; i++ {
